@@ -43,7 +43,7 @@ ASAN_ENV = {"ASAN_OPTIONS": "detect_leaks=0:abort_on_error=0:exitcode=5:allocato
             "UBSAN_OPTIONS": "halt_on_error=1:exitcode=5:print_stacktrace=1"}
 
 
-def run_driver(exe, script, events, timeout=20, wall=3600):
+def run_driver(exe, script, events, timeout=20, wall=3600, append=False):
     """run one script; on a crash / time-out of the driver resume with the scenario after the one that died.
     Returns number of driver restarts."""
     nscn = sum(1 for ln in open(script) if ln.startswith("scn "))
@@ -54,7 +54,7 @@ def run_driver(exe, script, events, timeout=20, wall=3600):
         errf = events + ".stderr"
         with open(errf, "ab") as ef:
             try:
-                p = subprocess.run([exe, script, events, "--from", str(start), "--timeout", str(timeout)],
+                p = subprocess.run([exe, script, events, "--from", str(start), "--timeout", str(timeout)] + (["--append"] if append else []),
                                    stdout=subprocess.DEVNULL, stderr=ef, env=env, timeout=wall)
                 rc = p.returncode
             except subprocess.TimeoutExpired:
@@ -275,7 +275,7 @@ def scenario_text(lines, sid):
     return out
 
 
-def drive_and_validate(prop, tier, exe, script_lines, module="TraceCore.tla", cfg="TraceCore.cfg", nshards=NPROC, timeout=20, tag="core"):
+def drive_and_validate(prop, tier, exe, script_lines, module="TraceCore.tla", cfg="TraceCore.cfg", nshards=NPROC, timeout=20, tag="core", passes=1):
     """shard, drive, validate.  Returns (verdicts merged, outdir, shard files)"""
     od = os.path.join(ROOT, "out", prop, tier)
     os.makedirs(od, exist_ok=True)
@@ -290,6 +290,8 @@ def drive_and_validate(prop, tier, exe, script_lines, module="TraceCore.tla", cf
     def one(job):
         sp, ep = job
         restarts = run_driver(exe, sp, ep, timeout=timeout)
+        for _ in range(passes - 1):      # the same script again in a fresh process, appended to the same trace (C07: repeat runs)
+            restarts += run_driver(exe, sp, ep, timeout=timeout, append=True)
         v = validate_trace(ep, module, cfg)
         v["restarts"] = restarts
         v["script"] = sp
@@ -307,7 +309,7 @@ def drive_and_validate(prop, tier, exe, script_lines, module="TraceCore.tla", cf
     return merged
 
 
-def confirm_bad(prop, tier, exe, bad, module="TraceCore.tla", cfg="TraceCore.cfg", timeout=20):
+def confirm_bad(prop, tier, exe, bad, module="TraceCore.tla", cfg="TraceCore.cfg", timeout=20, passes=1):
     """re-run each rejected scenario alone in a fresh process; keep those rejected again.
     Returns list of dicts with 'replay' path and scenario cfg."""
     od = os.path.join(ROOT, "out", prop, tier, "replay")
@@ -325,6 +327,8 @@ def confirm_bad(prop, tier, exe, bad, module="TraceCore.tla", cfg="TraceCore.cfg
         b, rp = job
         ep = rp.replace(".script", ".ndjson")
         run_driver(exe, rp, ep, timeout=timeout)
+        for _ in range(passes - 1):
+            run_driver(exe, rp, ep, timeout=timeout, append=True)
         v = validate_trace(ep, module, cfg)
         if v["bad"]:
             r = dict(b)
@@ -333,6 +337,19 @@ def confirm_bad(prop, tier, exe, bad, module="TraceCore.tla", cfg="TraceCore.cfg
             # scenario cfg from the reset line
             first = json.loads(open(ep).readline())
             r["cfg"] = first.get("cfg", {})
+            # the format the rejected call was working on (multi-handle scenarios have no single format in cfg)
+            bi, bh, efmt = v["bad"][0]["i"], None, None
+            evs = [json.loads(l) for l in open(ep)]
+            for e2 in evs:
+                if e2.get("i") == bi and e2.get("op") not in ("reset",):
+                    bh = e2.get("h")
+            for e2 in evs:
+                if e2.get("op") == "open" and e2.get("h") == bh and e2.get("i", 0) <= bi:
+                    efmt = e2.get("fmt", e2.get("afmt"))
+                    if not efmt:
+                        efmt = e2.get("afmt")
+            if efmt and "fmt" not in r["cfg"]:
+                r["cfg"]["fmt"] = efmt
             return r
         return None
     return [r for r in parallel(jobs, one) if r]
